@@ -267,3 +267,65 @@ func goodAssigned(k int) I {
 		}
 	}
 }
+
+func TestConstEval(t *testing.T) {
+	src := `package snippet
+const (
+	A = "a"; B = "b"; C = "c"
+	X = "b"; Y = "y"; Z = "z"
+)
+type nic struct{ Status string }
+var table = map[string]string{A: X, B: Y, C: Z}
+func viaSwitch(n *nic) {
+	switch n.Status {
+	case A:
+		n.Status = X
+	case B:
+		n.Status = Y
+	case C:
+		n.Status = Z
+	}
+}
+func viaElse(n *nic) {
+	if n.Status == A { n.Status = X } else if n.Status == B { n.Status = Y } else if n.Status == C { n.Status = Z }
+}
+func viaTable(n *nic) {
+	if v, ok := table[n.Status]; ok { n.Status = v }
+}
+func viaLocal(n *nic) {
+	s := n.Status
+	switch { case s == A: s = X; case s == B: s = Y; case s == C: s = Z }
+	n.Status = s
+}
+func cascades(n *nic) {
+	s := n.Status
+	if s == A { s = X }
+	if s == B { s = Y }
+	if s == C { s = Z }
+	n.Status = s
+}
+`
+	p := snippetProg(t, src)
+	want := map[string]string{"a": "b", "b": "y", "c": "z", "q": "q"}
+	run := func(name string) map[string]string {
+		fi := fnOf(t, p, name)
+		ce := &constEval{info: fi.Info(), maps: collectTables(fi.Info(), fi.Pkg.Syntax)}
+		got := map[string]string{}
+		for in := range want {
+			env, _ := ce.stmts(fi.Decl.Body.List, constEnv{"n.Status": in})
+			got[in] = env["n.Status"]
+		}
+		return got
+	}
+	for _, name := range []string{"viaSwitch", "viaElse", "viaTable", "viaLocal"} {
+		got := run(name)
+		for in, w := range want {
+			if got[in] != w {
+				t.Errorf("%s: %q → %q, want %q", name, in, got[in], w)
+			}
+		}
+	}
+	if got := run("cascades"); got["a"] != "y" || got["b"] != "y" {
+		t.Errorf("cascades: a → %q, b → %q; want y, y", got["a"], got["b"])
+	}
+}
